@@ -39,9 +39,9 @@ class InotifyBuffer(BaseThread):
         """
         return self._queue.get()
 
-    def remove_watches_under(self, path: bytes) -> None:
+    def remove_watches_under(self, moved_from_event: InotifyEvent) -> None:
         """Stops watching a directory (and its sub-directories) that was moved out of the tree."""
-        self._inotify.remove_watches_under(path)
+        self._inotify.remove_watches_under(moved_from_event)
 
     def on_thread_stop(self) -> None:
         self._inotify.close()
